@@ -261,3 +261,72 @@ Example C12_machine_load_nonvacuous :
   c12g_both CPlain (default_deser CPlain whash) (c12g_file [(0, JStr [97]); (1, JStr [98]); (1, JInt 2)]%Z) = true /\
   c12g_both CPlain (default_deser CPlain whash) (c12g_file [(0, JStr [97]); (0, JStr [98]); (2, JInt 1)]%Z) = true.
 Proof. vm_compute. repeat split. Qed.
+
+(* ====================================================================== audit follow-up *)
+From NT Require Import SerAuditC12.
+
+(* B1. The header, declaratively (no use of the reader's test): a JSON object with a member "nodes" and a member
+       "meta" that is an object whose "$generator" mentions "nutree/" (a string containing it; str() of a list or
+       dict shows its strings, so a container does if a member or key does).  The reader's test accepts EXACTLY
+       these values, and every other JSON value is rejected. *)
+Theorem C12_header_test_is_the_declared_header : forall j md,
+  check_header j = Ok md <-> has_header_decl j md.
+Proof. exact check_header_iff. Qed.
+Print Assumptions C12_header_test_is_the_declared_header.
+
+Theorem C12_no_declared_header_rejected : forall c deser shash j,
+  (forall md, ~ has_header_decl j md) ->
+  exists e, load_doc c deser shash j = Err e /\ (e = EFormat \/ e = EType).
+Proof. exact load_rejects_iff_no_header. Qed.
+Print Assumptions C12_no_declared_header_rejected.
+
+Theorem C12_has_header_is_declared : forall j, has_header j = true <-> exists md, has_header_decl j md.
+Proof. exact has_header_bool_decl. Qed.
+Print Assumptions C12_has_header_is_declared.
+
+Theorem C12_substring_is_declared : forall p s, is_substr p s = true <-> exists a b, s = a ++ p ++ b.
+Proof. exact is_substr_iff. Qed.
+Print Assumptions C12_substring_is_declared.
+
+(* B2. "The maps in use", specified independently of the writer: key_map True -> the class table of the guide,
+       False -> none, a dict -> itself; value_map False -> none, True -> none (TypedTree: "kind": the distinct kinds
+       in order of first occurrence), a dict -> itself (TypedTree adds "kind" unless present).  The writer's
+       resolution equals it, the kind list has no duplicates and is exactly the set of kinds that occur. *)
+Theorem C12_maps_in_use_as_specified : forall c ko vo f,
+  resolve_km c ko = km_spec c ko /\ resolve_vm c vo f = vm_spec c vo f.
+Proof. exact resolution_is_spec. Qed.
+Print Assumptions C12_maps_in_use_as_specified.
+
+Theorem C12_kind_list : forall f,
+  NoDup (kinds_spec f) /\ forall k, In k (kinds_spec f) <-> exists t, In t (pre_f f) /\ rkind t = Some k.
+Proof. exact kinds_spec_props. Qed.
+Print Assumptions C12_kind_list.
+
+Theorem C12_writer_follows_layout_with_specified_maps : forall c ser ko vo meta f,
+  ids_ok f -> opts_ok c ser ko vo meta f ->
+  save_doc c ser ko vo meta f
+  = Ok (doc (header_spec (km_spec c ko) (vm_spec c vo f) meta) (layout c ser (km_spec c ko) (vm_spec c vo f) f)).
+Proof. exact save_doc_is_layout_spec. Qed.
+Print Assumptions C12_writer_follows_layout_with_specified_maps.
+
+(* B3. JSON-level reading of the layout: entry #k is [parent position of the k-th node in pre-order, data]; if the
+       data is a number j then position j is an EARLIER node with the same data_id and the same kind. *)
+Theorem C12_layout_entry_reading : forall c ser km vm f k q,
+  nth_error (lay_f 0 1 f) k = Some q ->
+  (exists data, nth_error (layout c ser km vm f) k = Some (entry (SerLayFacts.q_ppos q) data)) /\
+  (forall j, nth_error (layout c ser km vm f) k = Some (entry (SerLayFacts.q_ppos q) (jnat j)) ->
+     exists x, In (j, x) (map (fun q => (SerLayFacts.q_pos q, SerLayFacts.q_node q)) (firstn k (lay_f 0 1 f))) /\
+               rdid x = rdid (SerLayFacts.q_node q) /\ rkind x = rkind (SerLayFacts.q_node q)).
+Proof. exact layout_entry_reading. Qed.
+Print Assumptions C12_layout_entry_reading.
+
+(* typed witness: #3 (kind b, first occurrence has kind a) in full, #5 (kind a) as the reference [4, 1] *)
+Example C12_layout_example_typed :
+  let l := layout CTyped wser (resolve_km CTyped KFalse) (resolve_vm CTyped VFalse f_ty) f_ty in
+  List.length l = 5 /\ nth 4 l JNull = entry 4 (jnat 1) /\
+  match nth 2 l JNull with JList [p; JDict _] => p = jnat 2 | _ => False end.
+Proof. exact f_ty_layout_refs. Qed.
+
+(* Outside the documented layout: JSON objects with a DUPLICATE member name.  The model's objects are association
+   lists read first-binding-wins, Python's json.load keeps the last binding; the theorems speak about parsed values
+   with unique member names (what json.dump writes and what the layout describes). *)
